@@ -51,7 +51,7 @@ class Stream:
 
     def __init__(self, name, harness, driver, gen, oracle=None, kind='diff', np=None, whitebox=(),
                  driver_args=(), harness_args=(), nontrivial=None, session='reset', timeout=300,
-                 sanitize=True, env=None, extra_src=(), batches=None):
+                 sanitize=True, env=None, extra_src=(), batches=None, site=None):
         self.name = name
         self.harness = harness
         self.driver = driver
@@ -69,6 +69,7 @@ class Stream:
         self.env = env or {}
         self.extra_src = tuple(extra_src)
         self.batches = batches or {'quick': 1, 'thorough': 4}
+        self.site = site  # stable name of the failure site for known_findings.json (optional)
 
 
 class Ctx:
@@ -607,6 +608,7 @@ def stage_b_stream(ctx, stream, stage_a_broken):
 
 def handle_failure(ctx, stream, np, ops, r, ofail, label):
     status = r['status']
+    site = getattr(stream, 'site', None)
     log('[%s] stream %s %s: %s at op %s' % (ctx.prop, stream.name, label, status, r['first_diff']))
 
     def fails(cand):
@@ -635,11 +637,11 @@ def handle_failure(ctx, stream, np, ops, r, ofail, label):
         # a crash / sanitizer abort / timeout of the real code on a generated input is a concrete failing input
         info['verdict'] = 'implementation aborted (rc=%s) on this input' % rr['rc']
         path, key = write_replay(ctx, stream, np, small, info)
-        report(ctx, path, key, True, info['verdict'], site=getattr(stream, 'crash_site', None))
+        report(ctx, path, key, True, info['verdict'], site=getattr(stream, 'crash_site', None) or site)
     elif rr['status'] == 'invariant':
         info['verdict'] = 'model invariant false on an implementation state: %s' % (rr['model'][i] if rr['model'] else '')
         path, key = write_replay(ctx, stream, np, small, info)
-        report(ctx, path, key, True, info['verdict'])
+        report(ctx, path, key, True, info['verdict'], site=site)
     elif of:
         info['verdict'] = 'property oracle fails on the implementation output: %s' % (of[0][1],)
         info['site'] = site
@@ -655,13 +657,13 @@ def handle_failure(ctx, stream, np, ops, r, ofail, label):
                           'correspondence_break': {'ops': small, 'op': info['op'], 'impl': info['impl_line'],
                                                    'model': info['model_line']}})
             path, key = write_replay(ctx, stream, np, fops, info2)
-            report(ctx, path, key, True, info2['verdict'])
+            report(ctx, path, key, True, info2['verdict'], site=site)
         else:
             info['verdict'] = 'correspondence stream %s no longer checks (model %s vs implementation %s); ' \
                               'no input violating the property oracle found' % (stream.name, info['model_line'], info['impl_line'])
             info['theorem'] = 'correspondence:' + stream.name
             path, key = write_replay(ctx, stream, np, small, info)
-            report(ctx, path, key, False, info['verdict'])
+            report(ctx, path, key, False, info['verdict'], site=site)
     if rr['status'] != 'model-crash':
         # keep the minimised case in the corpus candidates directory (not committed automatically)
         cdir = os.path.join(ctx.replay_dir, 'corpus_candidates', ctx.prop)
